@@ -147,11 +147,12 @@ def model_join(src, tgt, shape, mode, fields, dedup=False):
 def run_join(case):
     universe = case['u']
     src = [{'k': k, 'v': v, 'o': i} for i, (k, v) in enumerate(case['src'])]
-    tgt = [{'k': k, 't': 'T%d' % i} for i, k in enumerate(case['tgt'])]
+    tk = 'tk' if case.get('tkey') else 'k'
+    tgt = [{tk: k, 't': 'T%d' % i} for i, k in enumerate(case['tgt'])]
     vtype = 'integer' if universe == 'num' else 'string'
     st = mkstate([('src', [('k', 'string'), ('v', vtype), ('o', 'integer')], src),
                   ('mid', [('z', 'string')], [{'z': 'untouched'}]),
-                  ('tgt', [('k', 'string'), ('t', 'string')], tgt)])
+                  ('tgt', [(tk, 'string'), ('t', 'string')], tgt)])
     wildcard = case.get('wild', False)
     fields = fields_spec(universe, wildcard)
     m = core.mod('dataflows.processors.join')
@@ -162,7 +163,10 @@ def run_join(case):
         if case.get('dedup'):
             step = core.dataflows.join_with_self('src', key_spec(case['shape'], 's'), copy.deepcopy(dict(fields)))
         else:
-            step = core.dataflows.join('src', key_spec(case['shape'], 's'), 'tgt', key_spec(case['shape'], 't'),
+            tspec = key_spec(case['shape'], 't')
+            if case.get('tkey'):
+                tspec = ['tk'] if case['shape'] == 'list' else tspec.replace('{k}', '{tk}')
+            step = core.dataflows.join('src', key_spec(case['shape'], 's'), 'tgt', tspec,
                                        copy.deepcopy(dict(fields)), mode=case['mode'],
                                        source_delete=case.get('source_delete', True))
         out = core.materialise(core.from_state(st), step)
@@ -172,7 +176,7 @@ def run_join(case):
 
 
 def check(case):
-    label = 'join(%s) src=%r tgt=%r' % (', '.join('%s=%s' % (k, case[k]) for k in ('u', 'shape', 'mode', 'source_delete', 'spill', 'dedup', 'wild') if k in case),
+    label = 'join(%s) src=%r tgt=%r' % (', '.join('%s=%s' % (k, case[k]) for k in ('u', 'shape', 'mode', 'source_delete', 'spill', 'dedup', 'wild', 'tkey') if k in case),
                                        case['src'], case['tgt'])
     try:
         src, tgt, fields, out = run_join(case)
@@ -207,7 +211,11 @@ def check(case):
     if not dedup and not case.get('source_delete', True) and core.enc_rows(res['src']) != core.enc_rows(src):
         viol.append(('source-changed', '%s: the kept source resource changed' % label))
     got = res['src'] if dedup else res['tgt']
-    exp = model_join(src, tgt, case['shape'], case.get('mode'), eff, dedup)
+    tk = 'tk' if case.get('tkey') else 'k'
+    exp = model_join(src, [dict(r, k=r[tk]) for r in tgt] if tk != 'k' else tgt, case['shape'], case.get('mode'), eff, dedup)
+    if tk != 'k':
+        for r in exp:          # the model works on 'k'; the target's key field is called tk
+            r[tk] = r.pop('k', None)
     # normalise
     tname = 'src' if dedup else 'tgt'
     tdesc = out.desc['resources'][names.index(tname)]
@@ -244,7 +252,7 @@ def check(case):
                         viol.append((sig, '%s: row %d field %s = %r, definition gives %r' % (label, i, n, got[i].get(n), y)))
     # schema: new fields appended after the target's own, types per aggregate
     if not dedup:
-        if declared[:2] != ['k', 't']:
+        if declared[:2] != [tk, 't']:
             viol.append(('schema-order', '%s: target fields became %r' % (label, declared)))
         missing = [n for n in eff if n not in declared]
         if missing:
@@ -278,6 +286,10 @@ def cases(tier):
                     out.append({'u': u, 'src': s, 'tgt': t, 'mode': mode, 'shape': 'list', 'source_delete': False})
                     out.append({'u': u, 'src': s, 'tgt': t, 'mode': mode, 'shape': 'list', 'spill': True})
                 out.append({'u': u, 'src': s, 'tgt': t, 'mode': 'half-outer', 'shape': 'list', 'wild': True})
+                for mode in ('inner', 'half-outer', 'full-outer'):
+                    out.append({'u': u, 'src': s, 'tgt': t, 'mode': mode, 'shape': 'list', 'tkey': True})
+                    if u == 'num':
+                        out.append({'u': u, 'src': s, 'tgt': t, 'mode': mode, 'shape': 'format', 'tkey': True})
             for shape in shapes:
                 out.append({'u': u, 'src': s, 'tgt': [], 'shape': shape, 'dedup': True})
                 out.append({'u': u, 'src': s, 'tgt': [], 'shape': shape, 'dedup': True, 'spill': True})
